@@ -41,6 +41,11 @@ def showRes {α : Type} (c : Codec α) : Res α → String
 def parseOp {α : Type} (c : Codec α) (ts : List String) : Option (Op α) :=
   let nat (s : String) : Option Nat := s.toNat?
   match ts with
+  | "newp" :: h :: vs => do some (.newp (← nat h) (← vs.mapM c.parse))
+  | "copyp" :: h :: vs => do some (.copyp (← nat h) (← vs.mapM c.parse))
+  | "appp" :: h :: vs => do some (.appp (← nat h) (← vs.mapM c.parse))
+  | ["sortby", h, a] => do some (.sortby (← nat h) ((← nat a) != 0))
+  | ["iter", h] => do some (.iter (← nat h))
   | ["new", h] => do some (.new (← nat h))
   | ["newn", h, n, v] => do some (.newn (← nat h) (← nat n) (← c.parse v))
   | ["cp", h, g] => do some (.cp (← nat h) (← nat g))
@@ -101,7 +106,8 @@ def run1 {α : Type} [DecidableEq α] (E : Elem α) (c : Codec α) (showLive : B
       | none => (st', "model-fault dangling")
       | some vs =>
         let views := " ".intercalate (vs.map (showView c))
-        (st', showRes c r ++ " | " ++ views ++ (if showLive then s!" | L{st'.live}" else ""))
+        let caps := ",".intercalate (st'.caps.map fun o => match o with | some k => toString k | none => "-")
+        (st', showRes c r ++ " | " ++ views ++ " | K" ++ caps ++ (if showLive then s!" | L{st'.live}" else ""))
 
 structure All where
   i : Array (St Int)
